@@ -32,6 +32,12 @@ def queuesAfter (s : Streams) (r : Reader) (bytes : Bytes) : Option (List (List 
 
 def rd0 : Reader := Reader.new 16384
 
+/-- per stream after `Inner::recv_headers`: (reset?, receive queue, send queue) — in three lists -/
+def resetsAfter (s : Streams) (r : Reader) (bytes : Bytes) : Option (List Bool) :=
+  (hdrOf r bytes).map fun h => (s.recvHeaders h).1.store.slab.map (·.state.isReset)
+def sendQueuesAfter (s : Streams) (r : Reader) (bytes : Bytes) : Option (List (List SFrame)) :=
+  (hdrOf r bytes).map fun h => (s.recvHeaders h).1.store.slab.map (·.pendingSend)
+
 /-- a valid request: `82 86 84 41 01 61` = GET http://a/ -/
 def getFrame : Bytes := [0, 0, 6, 1, 5, 0, 0, 0, 1, 0x82, 0x86, 0x84, 0x41, 1, 97]
 
@@ -39,20 +45,23 @@ theorem valid_request_delivered :
     queuesAfter srv0 rd0 getFrame = some [[.request [71, 69, 84] [104, 116, 116, 112, 58, 47, 47, 97, 47] []]] ∧
     Spec.Http.request (fieldsOf rd0 getFrame) false = [] := by decide +kernel
 
-/-- N2: HEADERS[`02 07 "CONNECT"`] — CONNECT without `:authority` is delivered -/
+/-- N2 (repaired): HEADERS[`02 07 "CONNECT"`] — CONNECT without `:authority` -/
 def connectOnly : Bytes := [0, 0, 9, 1, 5, 0, 0, 0, 1, 0x02, 7, 67, 79, 78, 78, 69, 67, 84]
 
-theorem connect_without_authority_counterexample :
-    queuesAfter srv0 rd0 connectOnly = some [[.request [67, 79, 78, 78, 69, 67, 84] [] []]] ∧
-    Spec.Http.request (fieldsOf rd0 connectOnly) false = ["connect-without-authority"] := by decide +kernel
+/-- formerly delivered (`ok:0:1:CONNECT:-:-`); now nothing is queued, the stream is reset and
+    RST_STREAM(PROTOCOL_ERROR) is queued -/
+theorem connect_without_authority_rejected :
+    Spec.Http.request (fieldsOf rd0 connectOnly) false = ["connect-without-authority"] ∧
+    queuesAfter srv0 rd0 connectOnly = some [[]] ∧ resetsAfter srv0 rd0 connectOnly = some [true] ∧
+    sendQueuesAfter srv0 rd0 connectOnly = some [[.reset Conn.PROTOCOL_ERROR]] := by decide +kernel
 
-/-- N3: HEADERS[`82 86`] — GET with `:scheme` only (no `:path`, no `:authority`) is delivered -/
+/-- N3 (repaired): HEADERS[`82 86`] — GET with `:scheme` only (no `:path`, no `:authority`) -/
 def getSchemeOnly : Bytes := [0, 0, 2, 1, 5, 0, 0, 0, 1, 0x82, 0x86]
 
-theorem get_without_path_counterexample :
-    queuesAfter srv0 rd0 getSchemeOnly = some [[.request [71, 69, 84] [] []]] ∧
-    Spec.Http.request (fieldsOf rd0 getSchemeOnly) false = ["missing-path"] := by decide +kernel
-
+theorem get_without_path_rejected :
+    Spec.Http.request (fieldsOf rd0 getSchemeOnly) false = ["missing-path"] ∧
+    queuesAfter srv0 rd0 getSchemeOnly = some [[]] ∧ resetsAfter srv0 rd0 getSchemeOnly = some [true] ∧
+    sendQueuesAfter srv0 rd0 getSchemeOnly = some [[.reset Conn.PROTOCOL_ERROR]] := by decide +kernel
 
 /-! ### client side (known findings F5a, F5b, F5c) -/
 
@@ -141,7 +150,7 @@ theorem oversize_trailers_rejected :
     (ghostNext [] (decodeFrame rd200 postFrame).1 bigTrailers).map (·.1) = [[120, 45, 97], [120, 45, 98]] := by
   decide +kernel
 
-/-! ### content-length (N4) -/
+/-! ### content-length (N4, repaired) -/
 
 /-- POST http://a/ with `content-length: 5` and `content-length: 7`, no END_STREAM -/
 def twoClFrame : Bytes :=
@@ -149,31 +158,49 @@ def twoClFrame : Bytes :=
    0, 14, 99, 111, 110, 116, 101, 110, 116, 45, 108, 101, 110, 103, 116, 104, 1, 53,
    0, 14, 99, 111, 110, 116, 101, 110, 116, 45, 108, 101, 110, 103, 116, 104, 1, 55]
 
-/-- N4a: two different content-length values: the reference calls the announcement unusable, the
-    model accepts the head, reads `5`, and 5 octets of DATA with END_STREAM end the body cleanly -/
-theorem two_content_lengths_counterexample :
+/-- N4a (repaired): two different content-length values — formerly the first one counted; now the head is
+    refused: nothing queued, stream reset -/
+theorem two_content_lengths_rejected :
     Spec.Http.contentLength (fieldsOf rd0 twoClFrame) = some none ∧
-    ((hdrOf rd0 twoClFrame).map fun h =>
-      let s1 := (srv0.recvHeaders h).1
-      (clOf s1 0, (s1.recvRecvData 0 [104, 101, 108, 108, 111] true none).2.toOption)) =
-      some (some (.remaining 5), some ()) := by decide +kernel
+    queuesAfter srv0 rd0 twoClFrame = some [[]] ∧ resetsAfter srv0 rd0 twoClFrame = some [true] ∧
+    sendQueuesAfter srv0 rd0 twoClFrame = some [[.reset Conn.PROTOCOL_ERROR]] := by decide +kernel
+
+/-- the same with `content-length: 5` twice -/
+def sameClFrame : Bytes :=
+  [0, 0, 42, 1, 4, 0, 0, 0, 1, 0x83, 0x86, 0x84, 0x41, 1, 97,
+   0, 14, 99, 111, 110, 116, 101, 110, 116, 45, 108, 101, 110, 103, 116, 104, 1, 53,
+   0, 14, 99, 111, 110, 116, 101, 110, 116, 45, 108, 101, 110, 103, 116, 104, 1, 53]
+
+/-- a repeated content-length with EQUAL values is accepted (RFC 9110 §8.6 allows a recipient to), the
+    ledger starts at 5 — although `Spec.Http.contentLength`, which wants the field once, says `some none` -/
+theorem repeated_equal_content_length_accepted :
+    Spec.Http.contentLength (fieldsOf rd0 sameClFrame) = some none ∧
+    ((hdrOf rd0 sameClFrame).map fun h => clOf (srv0.recvHeaders h).1 0) = some (some (.remaining 5)) ∧
+    ((queuesAfter srv0 rd0 sameClFrame).map fun q => q.map (·.length)) = some [1] := by decide +kernel
 
 /-- POST http://a/ with an EMPTY `content-length` value, END_STREAM -/
 def emptyClFrame : Bytes :=
   [0, 0, 23, 1, 5, 0, 0, 0, 1, 0x83, 0x86, 0x84, 0x41, 1, 97,
    0, 14, 99, 111, 110, 116, 101, 110, 116, 45, 108, 101, 110, 103, 116, 104, 0]
 
-/-- N4b: an empty content-length value parses as 0 (`parse_u64("") = Ok(0)`): the request is delivered -/
-theorem empty_content_length_counterexample :
-    Spec.Http.contentLength (fieldsOf rd0 emptyClFrame) = some none ∧
-    parseU64 [] = some 0 ∧
-    ((queuesAfter srv0 rd0 emptyClFrame).map fun q => q.map (·.length)) = some [1] := by decide +kernel
+/-- N4b (repaired): an empty content-length value no longer parses (`parse_u64("")` is an error): refused -/
+theorem empty_content_length_rejected :
+    Spec.Http.contentLength (fieldsOf rd0 emptyClFrame) = some none ∧ parseU64 [] = none ∧
+    queuesAfter srv0 rd0 emptyClFrame = some [[]] ∧ resetsAfter srv0 rd0 emptyClFrame = some [true] := by
+  decide +kernel
+
+/-- POST http://a/ with `content-length: 5`, no END_STREAM -/
+def oneClFrame : Bytes :=
+  [0, 0, 24, 1, 4, 0, 0, 0, 1, 0x83, 0x86, 0x84, 0x41, 1, 97,
+   0, 14, 99, 111, 110, 116, 101, 110, 116, 45, 108, 101, 110, 103, 116, 104, 1, 53]
 
 /-! ### send side (N5, F8) -/
 
-/-- N5: `te: trailers` followed by `te: gzip` passes `check_headers` (only the first value is looked at) -/
-theorem send_second_te_counterexample :
-    (Streams.checkHeaders [Conn.field "te" "trailers", Conn.field "te" "gzip"]).toOption = some () ∧
+/-- N5 (repaired): `te: trailers` followed by `te: gzip` — formerly accepted (only the first value was
+    looked at); now `check_headers` refuses it -/
+theorem send_second_te_rejected :
+    (Streams.checkHeaders [Conn.field "te" "trailers", Conn.field "te" "gzip"]).toOption = none ∧
+    (Streams.checkHeaders [Conn.field "te" "trailers", Conn.field "te" "trailers"]).toOption = some () ∧
     Spec.Http.common (wireFields [Conn.field "te" "trailers", Conn.field "te" "gzip"]) = ["te-not-trailers"] := by
   decide +kernel
 
@@ -215,13 +242,15 @@ theorem status_in_request_refused :
 /-- with `content-length: 5` announced, a 6-octet DATA frame is refused with a stream error, and so is
     END_STREAM after 4 octets -/
 theorem data_against_content_length_witness :
-    ((hdrOf rd0 twoClFrame).map fun h =>
+    ((hdrOf rd0 oneClFrame).map fun h =>
       errOf ((srv0.recvHeaders h).1.recvRecvData 0 [1, 2, 3, 4, 5, 6] false none).2) =
         some (some (.reset 1 Conn.PROTOCOL_ERROR .library)) ∧
-    ((hdrOf rd0 twoClFrame).map fun h =>
+    ((hdrOf rd0 oneClFrame).map fun h =>
       errOf ((srv0.recvHeaders h).1.recvRecvData 0 [1, 2, 3, 4] true none).2) =
         some (some (.reset 1 Conn.PROTOCOL_ERROR .library)) ∧
-    ((hdrOf rd0 twoClFrame).map fun h => ((srv0.recvHeaders h).1.stream 0).state.isLocalError) = some false := by
+    ((hdrOf rd0 oneClFrame).map fun h => ((srv0.recvHeaders h).1.stream 0).state.isLocalError) = some false ∧
+    ((hdrOf rd0 oneClFrame).map fun h =>
+      ((srv0.recvHeaders h).1.recvRecvData 0 [104, 101, 108, 108, 111] true none).2.toOption) = some (some ()) := by
   decide +kernel
 
 
@@ -233,11 +262,6 @@ def pollErr : Streams.PollData → Option PErr
 theorem refused_head_poll_witness :
     ((hdrOf rd0 statusReqFrame).map fun h => pollErr ((srv0.recvHeaders h).1.recvPollData 0 "b0").2) =
       some (some (.reset 1 Conn.PROTOCOL_ERROR .library)) := by decide +kernel
-
-/-- POST http://a/ with `content-length: 5`, no END_STREAM -/
-def oneClFrame : Bytes :=
-  [0, 0, 24, 1, 4, 0, 0, 0, 1, 0x83, 0x86, 0x84, 0x41, 1, 97,
-   0, 14, 99, 111, 110, 116, 101, 110, 116, 45, 108, 101, 110, 103, 116, 104, 1, 53]
 
 /-- the announced length is what the ledger starts from; trailers right after the head (no DATA) are
     refused with a stream error -/
